@@ -117,6 +117,14 @@ func c09Inputs(tier string) []c09Input {
 	add("output-hide", "yaml", m("a", m("$output", false, "x", 1), "b", m("y", "$merge:a.x"), "c", m("$output", false, "d", m("$output", true, "v", 1))))
 	add("decode", "json", m("d", m("$decode", "json", "$value", `{"b":1,"a":{"z":1,"y":2},"c":[1,2]}`)))
 	add("toml-out", "toml", m("b", 1, "a", m("z", 1, "y", 2), "c", []any{m("k", 1), m("k", 2)}))
+	// keys that differ only in case, or only by an unescape: order-sensitive positions must still have one total order
+	add("case-variant-outputs", "yaml", m("Web", m("$output", true, "v", 1), "web", m("$output", true, "v", 2), "WEB", m("$output", true, "v", 3)))
+	add("case-variant-tolist", "json", m("f", m("$encode", "tolist:=", "V", 1, "v", 2, "K", 3, "k", 4)))
+	add("case-variant-values", "json", m("f", m("$encode", "values", "Key", 1, "key", 2, "KEY", 3)))
+	add("case-variant-repeat", "json", m("$repeat", m("X", 2, "x", 2), "v", `$"{$repeat:X}{$repeat:x}"`))
+	add("case-variant-plain", "yaml", m("Key", 1, "key", 2, "kEy", m("A", 1, "a", 2)))
+	add("case-variant-merge", "json", m("Aa", 1, "aA", 2, "aa", 3), m("AA", 4, "aa", "$delete", "Aa", 9))
+	add("unicode-variant-keys", "json", m("é", 1, "e\u0301", 2, "É", 3, "f", m("$encode", "values", "é", 1, "É", 2)))
 	// YAML anchors and merge keys (yamlMerge ranges over maps)
 	ins = append(ins, c09Input{Kind: "yaml-merge-keys", Format: "json", YAML: "x: &x {a: 1, b: 2, c: 3}\ny: &y {a: 9, d: 4}\nz:\n  <<: [*x, *y]\n  e: 5\nw:\n  <<: *y\n  a: 0\n"})
 	ins = append(ins, c09Input{Kind: "yaml-stream", Format: "yaml", YAML: "a: 1\nb: {x: 1, y: 2}\n---\nc: 3\n$output: true\nd: {$output: true, e: 1}\n"})
@@ -198,6 +206,43 @@ func buildC09(tier string) *core.Plan {
 				return
 			}
 			c.Outcome("deterministic")
+		}}
+
+	// the hand-picked inputs once more with the maps.Keys/Values call sites under control as well
+	var picked []int
+	for i, in := range ins {
+		if in.Kind != "plain-tree" && in.Kind != "merge-pair" {
+			picked = append(picked, i)
+		}
+	}
+	keyBound := 1
+	if tier == "thorough" {
+		keyBound = 2
+	}
+	keyOrder := core.Space{Name: fmt.Sprintf("map-orders-incl-maps.Keys-sites-bound%d", keyBound), N: int64(len(picked)),
+		Desc: func(i int64) any { return ins[picked[i]] },
+		Run: func(c *core.Ctx, i int64) {
+			in := ins[picked[i]]
+			res := explore.MapOrdersAt(keyBound, maxExec, func(string) bool { return true }, in.eval)
+			c.Extra("executions_keys_sites", int64(res.Executions))
+			c.Trans(res.Executions)
+			for j := 0; j < res.Executions; j++ {
+				c.Eval()
+			}
+			c.Validated()
+			if res.MaxPoints > 0 {
+				c.Nontrivial()
+			}
+			if len(res.Outcomes) != 1 {
+				c.Outcome("NONDETERMINISTIC")
+				var obs []any
+				for o, seq := range res.FirstByObs {
+					obs = append(obs, map[string]any{"observation": clip(o), "choices": seq, "executions": res.Outcomes[o]})
+				}
+				c.Fail("map-order", "outcome-depends-on-map-order", in.Kind+": "+core.JSON(in.Layers)+in.YAML, map[string]any{"distinct": len(res.Outcomes), "observations": obs, "sites": "range statements and maps.Keys/Values/All calls"})
+				return
+			}
+			c.Outcome("deterministic-incl-keys-sites")
 		}}
 
 	// schedules: pairs (and triples) of inputs as cooperative threads
@@ -322,7 +367,7 @@ func buildC09(tier string) *core.Plan {
 		}}
 
 	return &core.Plan{
-		Spaces: []core.Space{mapOrder, sched, free, cli},
+		Spaces: []core.Space{mapOrder, keyOrder, sched, free, cli},
 		Rule: "for each input, every execution with <= bound non-default picks at the instrumented map-range sites (all sites found by vinstr in the working tree, insert-during-range latitude included); " +
 			"every interleaving with <= 2 pre-emptions (3 threads: <= 1) at accesses to mutable package-level variables; non-trivial = the input reaches at least one map-order choice point",
 		Assumptions: []string{"map iteration inside dependencies (yaml.v3, go-toml, encoding/json) is not controlled; encoding/json and go-toml sort keys, yaml.v3 sorts keys on output",
